@@ -12,7 +12,7 @@ use refchess::Pos;
 use serde_json::{json, Value};
 use std::cell::RefCell;
 
-pub const RULE: &str = "histories of 1..3 position commands sent to one engine through the real handle_command (hook verif_handle_command), with ucinewgame / isready lines between them in 30% of the steps, and 30% of the later commands being the previous command word for word or continued by 1..3 further moves (as a GUI restates a game); each is 'startpos' or a six-field FEN written by the reference from a valid generated position with counters a real game can reach (halfmove 0..150, fullmove 1..6000 weighted to 1, two-digit, 200..300 and four-digit values), followed by 'moves' and a reference-legal playout of 0..250 plies in UCI notation (castling as king move, promotions with piece letter); whitespace varied as the protocol allows. Oracle: engine board (hook verif_board) after EVERY command == reference position after the playout (placement, side, rights, ep convention, bitboard consistency); no panic. Non-trivial = a FEN that is not the start position and/or a move list containing a castle, ep capture or promotion; distinct by command text.";
+pub const RULE: &str = "histories of 1..3 position commands sent to one engine through the real handle_command (hook verif_handle_command), with ucinewgame / isready lines between them in 30% of the steps, and 30% of the later commands being the previous command word for word or continued by 1..3 further moves (as a GUI restates a game); each is 'startpos' or a six-field FEN written by the reference from a valid generated position with counters a real game can reach (fullmove 1..6000 weighted to 1, two-digit, 200..300 and four-digit values; halfmove clock 0..150 but never more than the plies played so far, 0 after a double push, and exactly on that bound in a quarter of the cases), followed by 'moves' and a reference-legal playout of 0..250 plies in UCI notation (castling as king move, promotions with piece letter); whitespace varied as the protocol allows. Oracle: engine board (hook verif_board) after EVERY command == reference position after the playout (placement, side, rights, ep convention, bitboard consistency); no panic. Non-trivial = a FEN that is not the start position and/or a move list containing a castle, ep capture or promotion; distinct by command text.";
 
 thread_local! {
     static ENGINE: RefCell<Option<Flounder>> = RefCell::new(None);
@@ -57,6 +57,7 @@ pub fn gen_position_cmd(s: &mut Src, max_plies: usize, small: bool) -> PosCmd {
         let p = if small { gen::g_small(s).0 } else { gen::g_mix(s).0 };
         let half = s.below(151) as u32;
         let full = fullmove(s);
+        let (half, full) = gen::reachable_counters(s, &p, half, full);
         let fen = p.fen(half, full);
         let mut t = format!("position{}fen", sep(s));
         for field in fen.split(' ') {
@@ -205,6 +206,42 @@ pub fn run(tier: Tier, seed: u64, known: &Known) -> PropRun {
     run
 }
 
-pub fn replay(_part: &str, bytes: &[u8], _case: &Value, stats: &mut Stats) -> Verdict {
+/// Structural replay: the saved command lines through a fresh engine; the reference reads the
+/// same lines; the board is compared after every position command.
+fn replay_commands(cmds: &[Value], stats: &mut Stats) -> Verdict {
+    let mut fl = Flounder::new();
+    let mut sent: Vec<String> = Vec::new();
+    for c in cmds {
+        let Some(text) = c.as_str() else { continue };
+        sent.push(text.to_string());
+        let r = std::panic::catch_unwind(std::panic::AssertUnwindSafe(|| {
+            fl.verif_handle_command(text);
+            *fl.verif_board()
+        }));
+        stats.eval();
+        let board = match r {
+            Ok(b) => b,
+            Err(p) => {
+                let msg = crate::panic_text(&p);
+                let full: u32 = text.split_whitespace().nth(7).and_then(|x| x.parse().ok()).unwrap_or(0);
+                let sig = if msg.contains("fullmove counter") && full > 255 { "fullmove-counter-above-255-panic" } else { "position-command-panic" };
+                return Err(Failure::new(sig, json!({"commands": sent, "panic": msg, "fullmove": full})));
+            }
+        };
+        if text.split_whitespace().next() != Some("position") {
+            continue;
+        }
+        let expected = crate::script::ref_position(text).map_err(|e| Failure::new("harness-bad-replay-file", json!({"error": e})))?.pop().unwrap();
+        if let Err(why) = eng::compare_board(&board, &expected) {
+            return Err(Failure::new("wrong-position", json!({"commands": sent, "expected": expected.fen4(), "engine": eng::board_to_pos(&board).fen4(), "why": why})));
+        }
+    }
+    Ok(())
+}
+
+pub fn replay(_part: &str, bytes: &[u8], case: &Value, stats: &mut Stats) -> Verdict {
+    if let Some(c) = case.get("commands").and_then(|x| x.as_array()) {
+        return replay_commands(c, stats);
+    }
     check(bytes, stats)
 }
